@@ -4,6 +4,7 @@ import (
 	"errors"
 	"fmt"
 	"math"
+	"regexp"
 	"strings"
 )
 
@@ -15,6 +16,34 @@ var (
 
 func IsNoObjectFound(err error) bool {
 	return errors.Is(err, ErrNoObjectFound)
+}
+
+// validateSearch validates the arguments of a search made on a field which is
+// not indexed, the same way a search on an indexed field validates them
+func validateSearch(o Object, field string, fp []string, operator string, search *indexedField) (err error) {
+	var zero *indexedField
+
+	switch operator {
+	case "=", "!=", ">", ">=", "<", "<=", "~=":
+	default:
+		return fmt.Errorf("%w %s", ErrUnkownSearchOperator, operator)
+	}
+
+	if value, ok := fieldByName(o, fp); !ok {
+		return fmt.Errorf("%w %s for object %T", ErrUnkownField, field, o)
+	} else if zero, err = newIndexedField(value, 0); err != nil {
+		return
+	}
+
+	if fieldType := zero.valueTypeString(); fieldType != search.valueTypeString() {
+		return fmt.Errorf("%w, cannot cast %T(%v) to %s", ErrCasting, search.Value, search.Value, fieldType)
+	}
+
+	if sval, ok := search.Value.(string); ok && operator == "~=" {
+		_, err = regexp.Compile(sval)
+	}
+
+	return
 }
 
 // Search helper structure to easily build search queries on objects
